@@ -16,6 +16,16 @@ type Res struct {
 	Name    string `json:"name"`
 	Variant int    `json:"variant"`
 	Policy  string `json:"policy,omitempty"` // value of helm.sh/resource-policy ("" = annotation absent)
+	// NS is an explicit metadata.namespace in the template ("" = none: the release namespace "default" applies).
+	NS string `json:"ns,omitempty"`
+}
+
+// Namespace the object lives in.
+func (r Res) Namespace() string {
+	if r.NS != "" {
+		return r.NS
+	}
+	return "default"
 }
 
 type kindInfo struct {
@@ -42,16 +52,24 @@ func Path(kind, name, ns string) string {
 	return fmt.Sprintf("%s/namespaces/%s/%s/%s", ki.Prefix, ns, ki.Plural, name)
 }
 
-// Path of the resource in the default namespace.
-func (r Res) Path() string { return Path(r.Kind, r.Name, "default") }
+// Path of the resource (in the release namespace unless the template names another one).
+func (r Res) Path() string { return Path(r.Kind, r.Name, r.Namespace()) }
 
-// Key is kind/name.
-func (r Res) Key() string { return r.Kind + "/" + r.Name }
+// Key is kind/name (kind/name@namespace when the template names a namespace).
+func (r Res) Key() string {
+	if r.NS != "" {
+		return r.Kind + "/" + r.Name + "@" + r.NS
+	}
+	return r.Kind + "/" + r.Name
+}
 
 // Object is the desired object exactly as the template states it.
 func (r Res) Object() map[string]interface{} {
 	ki := Kinds[r.Kind]
 	md := map[string]interface{}{"name": r.Name}
+	if r.NS != "" {
+		md["namespace"] = r.NS
+	}
 	if r.Policy != "" {
 		md["annotations"] = map[string]interface{}{"helm.sh/resource-policy": r.Policy}
 	}
